@@ -108,7 +108,7 @@ CLAIMS = {
    text="Proof for the whole verification path + partial proof elsewhere + hostile-input execution. Proved in Lean for all inputs and both build modes: expand_public followed by verify / hash_verify / _internal_verify never panics on ANY "
         "public-key bytes and ANY signature bytes (verification_path_never_panics: sig_decode's accumulator and hint index discipline, sample_in_ball's Hamming-weight assertions, rej_ntt_poly, the lazy NTT pipeline, use_hint within w1_encode's "
         "asserted range, simple_bit_pack filling its slice); the three signing entry points never panic on any private key deserialisation accepted, for every message / context / pre-hash / RNG behaviour, within the first fuel attempts with fuel*l <= 65535 (signing_never_panics: expand_mask, commitment pipeline, high_bits/w1_encode, c*s1/c*s2/c*t0 through mont_reduce and inv_ntt, partial_reduce32/low_bits/make_hint inside their domains, every assertion of sig_encode and hint_bit_pack implied by the acceptance tests); private-key deserialisation never faults; scalar kernels on their domains; the inverse NTT on every vector that fits partial_reduce32; all six entry points on over-long contexts; "
-        "keygen and both signers on every failing generator; range self-checks cannot fire on accepted keys; derivation ignores t0. The three pinned-tree panics (F1, F2, F3) are refuted on frozen definitions / removed. key generation (seeded, and RNG-driven for every generator behaviour) and public-key derivation from any accepted private key never panic and return well-formed keys. into_bytes of a key obtained from any (accepted) byte string or from key generation never panics (serialisation_never_panics, through the NTT inversion identity mod q). Every public entry point named in the property is covered by a theorem; hostile-input execution runs on every check in the checked build on random and constructed hostile inputs (random pk/sk/sig, accepted-but-dishonest keys, edited t0, forgeries).",
+        "keygen and both signers on every failing generator; range self-checks cannot fire on accepted keys; derivation ignores t0. The three pinned-tree panics (F1, F2, F3) are refuted on frozen definitions / removed. key generation (seeded, and RNG-driven for every generator behaviour) and public-key derivation from any accepted private key never panic and return well-formed keys. into_bytes of a key obtained from any (accepted) byte string or from key generation never panics (serialisation_never_panics, through the NTT inversion identity mod q). Every public entry point named in the property is covered by a theorem; hostile-input execution runs on every check in the checked build on random and constructed hostile inputs (random pk/sk/sig, accepted-but-dishonest keys, edited t0, forgeries). Fourth session: a crafted accepted private key that exhausts the signer's 16-bit rejection counter was found (F4: panic in checked builds, no return in release builds) and repaired (fix 322a92d: the signer returns an error); its witness runs first on every run. The signing no-panic theorem keeps the hypothesis fuel*l <= 65535; beyond it the repaired crate returns Err (observed on the witness, not proved).",
    note=TB + "the verification theorem assumes of the hash oracles only that they return as many bytes as requested; the model's samplers read a finite XOF prefix, so its extra outcome Fault.fuel is allowed by the theorem and is not a crate behaviour. residual: more than 65535/l consecutive rejections would overflow the u16 attempt counter (probability below 2^-256).",
    tech="Lean 4 no-fault theorems in checked mode + panic-oracle execution of the checked build on hostile inputs"),
  'C18': dict(cat='proof', ref='DESIGN 5 C18, 3.2',
@@ -203,7 +203,7 @@ def main():
         'hooks': {'guard': 'verif-hooks',
                   'enable': 'cargo build --features verif-hooks (the harness crate /verif/harness depends on /repo by path with features verif-hooks,dudect)',
                   'baseline_off_cmd': 'cd /repo && cargo test --workspace --no-fail-fast --offline',
-                  'source_commits': ['f757f8b'], 'add_only': True},
+                  'source_commits': ['f757f8b', '1fa9f27'], 'add_only': True},
         'engines': [
             {'name': 'lean4-model', 'path': 'lean/', 'serves_properties': claimed, 'kind_free_text': 'Lean 4 model of the crate (Impl), generated kernels/constants/decisions (Gen), property theorems (Props)'},
             {'name': 'translator', 'path': 'translator/', 'serves_properties': claimed, 'kind_free_text': 'Rust-subset to Lean translator; regenerates Gen/*.lean from /repo on every run'},
@@ -212,7 +212,7 @@ def main():
         'checks': checks,
         'not_applicable': [{'property_id': p['id'], 'reason': 'not claimed yet: its check is still under construction (DESIGN section 9, order of work)'}
                            for p in props if p['id'] not in CLAIMS],
-        'notes': 'See DESIGN.md. Genuine defects found on the pinned tree (F1-F3) are recorded in known_findings.json; all three are repaired in /repo by fix: commits.'}
+        'notes': 'See DESIGN.md. Genuine defects found on the pinned tree (F1-F4) are recorded in known_findings.json; all four are repaired in /repo by fix: commits.'}
     json.dump(man, open(os.path.join(VERIF, 'MANIFEST.json'), 'w'), indent=1)
     print('claimed:', claimed)
 
